@@ -94,7 +94,8 @@ def rule_H2(ctx: Ctx) -> None:
             tup = False
             if isinstance(dc, ast.DictComp) and isinstance(dc.value, ast.IfExp):
                 conv = dc.value.orelse
-                tup = isinstance(conv, ast.ListComp) and X.same_expr(conv.elt, f"tuple({X.U(conv.generators[0].target)})") and X.U(conv.generators[0].iter) == X.U(dc.generators[0].target.elts[1])
+                ew = X.elementwise(conv)
+                tup = ew is not None and ew[2] == "list" and X.same_expr(ew[0], "tuple(_x)") and X.U(ew[1]) == X.U(dc.generators[0].target.elts[1])
                 okt, _ = X.relation_in(dc.value.test, [f"isinstance({X.U(dc.generators[0].target.elts[1])}, bool) or {X.U(dc.generators[0].target.elts[1])} is None"])
                 tup = tup and okt and X.same_expr(dc.generators[0].iter, f"{arg}['endpoint_kwargs'].items()") and X.U(dc.key) == X.U(dc.generators[0].target.elts[0])
             extra["coordinate_lists_restored_as_tuples"] = tup
@@ -160,10 +161,10 @@ def rule_H4(ctx: Ctx) -> None:
     if f is None:
         raise AnalysisError("MazeDatasetCollectionConfig.maze_dataset_configs not found")
     sf, lf = f.kwarg("serialization_fn"), f.kwarg("loading_fn")
-    ok_s = isinstance(sf, ast.Lambda) and isinstance(sf.body, ast.ListComp) and X.U(sf.body.generators[0].iter) == sf.args.args[0].arg \
-        and X.same_expr(sf.body.elt, f"{X.U(sf.body.generators[0].target)}.serialize()") and not sf.body.generators[0].ifs
-    ok_l = isinstance(lf, ast.Lambda) and isinstance(lf.body, ast.ListComp) and X.same_expr(lf.body.generators[0].iter, f"{lf.args.args[0].arg}['maze_dataset_configs']") \
-        and X.same_expr(lf.body.elt, f"MazeDatasetConfig.load({X.U(lf.body.generators[0].target)})") and not lf.body.generators[0].ifs
+    es = X.elementwise(sf.body) if isinstance(sf, ast.Lambda) else None
+    el = X.elementwise(lf.body) if isinstance(lf, ast.Lambda) else None
+    ok_s = es is not None and es[2] == "list" and X.U(es[1]) == sf.args.args[0].arg and X.same_expr(es[0], "_x.serialize()")
+    ok_l = el is not None and el[2] == "list" and X.same_expr(el[1], f"{lf.args.args[0].arg}['maze_dataset_configs']") and X.same_expr(el[0], "MazeDatasetConfig.load(_x)")
     ctx.judge(c, ok_s and ok_l, {"serialization_fn": X.U(sf)[:120], "loading_fn": X.U(lf)[:140]},
               "member configs are serialised and reloaded one by one, in order", "a reloaded collection config has other members")
     h = ctx.index.func(f"{CD}.MazeDatasetCollectionConfig.stable_hash_cfg")
